@@ -352,6 +352,18 @@ class World:
         return self._finish(step, dst, wire, True, kind)
 
 
+    def op_load_blob(self, step):
+        """a row written by an earlier deployment (frozen golden blob) is found in storage"""
+        from . import selfcheck
+        n = self.nodes[step["n"]]
+        gb = selfcheck.golden()["blobs"][step["golden"]]
+        n.slot = gb["blob"].encode("ascii")
+        n.slot_meta = (gb["cls"], n.pset, "golden")
+        n.booted = True
+        n.inst = None
+        n.golden = gb
+        return self.log(step, "blob", dg(n.slot))
+
     def op_call(self, step):
         """one raw API call on the node's current instance (call-history exploration)"""
         n = self.nodes[step["n"]]
